@@ -223,7 +223,11 @@ class TList(T):
         self.key = ('List', elem.key)
 
     def _mk_sort(self):
-        return z3.SeqSort(self.elem.sort())
+        # (length, array) pair in canonical form -- see lists.py
+        n = 'List_' + _tname(self.elem)
+        d = z3.Datatype(n)
+        d.declare('mk_' + n, ('len_' + n, z3.IntSort()), ('arr_' + n, z3.ArraySort(z3.IntSort(), self.elem.sort())))
+        return d.create()
 
 
 class TSet(T):
